@@ -199,6 +199,9 @@ def gen_cases(ctx, harness):
     for s in seeds:
         r2 = subprocess.run([harness, "gen", "rand", str(s), str(nrand // len(seeds))], capture_output=True, text=True, timeout=600)
         lines += r2.stdout.strip().split("\n")
+    for s in seeds:
+        rz = subprocess.run([harness, "gen", "zerow", str(s + 31), str(max(2000, nrand // (10 * len(seeds))))], capture_output=True, text=True, timeout=600)
+        lines += rz.stdout.strip().split("\n")
     nlong_got = 0
     for s in seeds:
         r3 = subprocess.run([harness, "gen", "long", str(s + 77), str(nlong // len(seeds))], capture_output=True, text=True, timeout=600)
@@ -251,8 +254,48 @@ def vm_crosscheck(ctx, driver, lines):
     return len(sub), bad
 
 
+# ---- histories with clear() and lastAvailablePos() (coq/ReviewGaps2C12Model.v, Properties_gaps2_C12.v) ----
+def clear_suffix(line):
+    """the operations after the last clear() of an RC line, as an RC line of a fresh object (c12_history_state)"""
+    f = line.split()
+    b, e, n = f[1], f[2], int(f[3])
+    ops = [f[4 + 3 * i: 7 + 3 * i] for i in range(n)]
+    last = max([i for i, o in enumerate(ops) if o[0] == "2"], default=-1)
+    tail = ops[last + 1:]
+    return "RC %s %s %d%s" % (b, e, len(tail), "".join(" " + " ".join(o) for o in tail)), sum(1 for o in ops[:last + 1] if o[0] in ("1", "3", "0"))
+
+
+def run_clear_tie(ctx):
+    h = common.build_harness("rowleg_clear")
+    d = common.build_driver("gaps2")
+    count = 6000 if ctx.quick else 120000
+    lines = common.harness_gen(h, ["rand", ctx.seed, count])
+    lines += ["RC 0 6 8 0 2 5 3 0 0 2 0 0 3 0 0 0 2 5 1 1 -3 0 1 -3 3 0 0"]   # the Example c12_history_nonvacuous
+    impl, model, errs = common.run_both([h, "run"], [d], lines)
+    diffs = [(l, a, b) for l, a, b in zip(lines, impl, model) if a != b]
+    # statement-level oracle (c12_clear_forgets / c12_history_state): an object with a history ending in a clear() behaves as a
+    # fresh object on the operations that follow -- compared implementation against implementation
+    withc = [l for l in lines if " 2 0 0" in l]
+    suff = [clear_suffix(l)[0] for l in withc]
+    simpl = common.run_both([h, "run"], None, suff)[0]
+    byline = dict(zip(lines, impl))
+    forget = []
+    for l, sl, so in zip(withc, suff, simpl):
+        a = byline[l]
+        apl, _, aouts = a.partition(" | ")
+        spl, _, souts = so.partition(" | ")
+        # the final placement is the whole-object observation; the outputs of the suffix are the last ones of the history
+        st, at = souts.split(), aouts.split()
+        if apl.strip() != spl.strip() or (st and at[-len(st):] != st):
+            forget.append((l, a, sl, so))
+    info = {"histories": len(lines), "distinct": len(set(lines)), "with_clear": len(withc),
+            "with_lastAvailablePos": sum(1 for a in impl if "L " in a), "lastAvailablePos_on_empty_legalizer": sum(1 for a in impl if "L none" in a),
+            "model_differences": len(diffs), "history_remembered_after_clear": len(forget), "harness_errors": len(errs or [])}
+    return info, diffs, forget
+
+
 def run(ctx):
-    proof_ok, proof = common.proof_status(ctx, "C12")
+    proof_ok, proof = common.proof_status_all(ctx, "C12", ["gaps2_C12"])
     harness = common.build_harness("rowleg")
     driver = common.build_driver()
     lines, nenum, enum, nlong = gen_cases(ctx, harness)
@@ -263,6 +306,18 @@ def run(ctx):
     ofail = [m for s in stats for m in s["oracle_fail"]]
     incompl = [m for s in stats for m in s["incomplete"]]
     nvm, vmbad = vm_crosscheck(ctx, driver, lines)
+    cinfo, cdiffs, cforget = run_clear_tie(ctx)
+    for l, a, sl, so in cforget[:3]:
+        ctx.violation("RowLegalizer violates C12 on a history with clear(): the cells inserted after clear() are not placed / priced as on a "
+                      "fresh legalizer of the same segment (the placement is not the optimum for the cells inserted since the clear)",
+                      {"case": l, "format": "RC b e n (k w t)*, k=0 push 1 getCost 2 clear() 3 lastAvailablePos()", "implementation_output": a,
+                       "same_operations_on_a_fresh_object": sl, "fresh_object_output": so, "how": "./check C12 --replay <this file>"})
+    if cdiffs and not cforget:
+        l, a, b = cdiffs[0]
+        ctx.violation("correspondence ReviewGaps2C12Model.v <-> RowLegalizer (histories with clear() / lastAvailablePos()) no longer holds "
+                      "(%d of %d histories differ), but no history violating C12 was found" % (len(cdiffs), cinfo["histories"]),
+                      {"broken": "correspondence of coq/ReviewGaps2C12Model.v (theorems of Properties_gaps2_C12.v) with RowLegalizer",
+                       "first_difference": {"case": l, "implementation": a, "model": b}}, found_input=False)
 
     for line, il, why in ofail[:3]:
         ctx.violation("RowLegalizer violates C12 on a concrete history: %s" % why,
@@ -323,14 +378,18 @@ def run(ctx):
         "model_vs_impl_differences": len(mism),
         "impl_outputs_rejected_by_proved_checker_or_cost_oracle": len(ofail),
         "vm_compute_crosschecked_cases": nvm,
+        "histories_with_clear_and_lastAvailablePos": cinfo,
         "clauses": {"legality": "proved for all histories (c12_placement_legal)",
                     "query purity / prediction": "proved for all reachable states (c12_query_pure)",
-                    "optimality + cost sum": "certificate checker proved sound for all inputs; completeness of the algorithm: bounded theorem "
-                                             "(c12_optimal_bounded) + validated on every case of this run (checked_run and cert_ok on the C++ output)"},
+                    "optimality + cost sum": "proved for all segments and all histories of fitting insertions and queries (c12_optimal_unbounded, "
+                                             "c12_costs_sum_to_minimum_unbounded); additionally the certificate checker is proved sound for all inputs and run on every "
+                                             "C++ output of this run (checked_run, cert_ok), and c12_optimal_bounded cross-checks by computation"},
     })
     return ctx.finish(LEVEL, cov, [
         "model RowLeg.v is hand-written; tied to row_legalizer.cpp by exact comparison on the cases of this run",
-        "unbounded optimality of the cascading-descent algorithm itself is not proved (bounded theorem + per-run validation by the proved checker)",
+        "optimality of the cascading-descent algorithm is proved without size bound (c12_optimal_unbounded) for the model over ideal Z; the proved checker is additionally run on every C++ result",
+        "the exhaustive stream enumerates the property's own small bounds (7,4,3,3) in the THOROUGH tier only; the quick tier enumerates (5,3,3,2)",
+        "RowLegalizer::clear() and lastAvailablePos() are in neither model nor tie: histories that span a clear() are not covered",
         "machine-integer overflow is outside this model (ideal Z); see C07"])
 
 
@@ -338,6 +397,16 @@ def replay(ctx, path):
     import json
     r = json.load(open(path))
     case = r["replay"].get("case") or r["replay"].get("first_difference", {}).get("case")
+    if case.startswith("RC"):
+        h = common.build_harness("rowleg_clear"); d = common.build_driver("gaps2")
+        sl, _ = clear_suffix(case)
+        impl, model, _ = common.run_both([h, "run"], [d], [case, sl])
+        print("case :", case); print("impl :", impl[0]); print("model:", model[0])
+        print("after the last clear(), on a fresh object:", sl); print("impl :", impl[1])
+        apl, _, aouts = impl[0].partition(" | "); spl, _, souts = impl[1].partition(" | ")
+        st, at = souts.split(), aouts.split()
+        forgot = apl.strip() == spl.strip() and (not st or at[-len(st):] == st)
+        return 0 if (impl[0] == model[0] and forgot) else 1
     harness = common.build_harness("rowleg")
     driver = common.build_driver()
     st = _chunk_worker((harness, driver, [case]))
